@@ -53,12 +53,12 @@ package influx
 //@   ensures result2 == nil && result1 == Field_Type_Boolean ==> (result0 == 1 || result0 == 0)
 //@   ensures (s == "t" || s == "T" || s == "true" || s == "True" || s == "TRUE") ==> (result2 == nil && result1 == Field_Type_Boolean && result0 == 1)
 //@   ensures (s == "f" || s == "F" || s == "false" || s == "False" || s == "FALSE") ==> (result2 == nil && result1 == Field_Type_Boolean && result0 == 0)
+//@   ensures result2 == nil && result1 == Field_Type_Float ==> !isNaN(result0) && !isInf(result0)
 //@   ghost vn bool = false
 //@   call IsValidNumber
 //@     requires arg0 == s
 //@     set vn = ret0
 //@   ensures [float_is_valid_number] result2 == nil && result1 == Field_Type_Float && s[len(s)-1] != 102 ==> vn
-//@   ensures result2 == nil && result1 == Field_Type_Float ==> !isNaN(result0) && !isInf(result0)
 
 // Un-escaping agrees with the escaping rules of the splitter (nextUnescapedChar treats `\,`, `\ `, `\=`
 // and `\\` as escapes): a backslash is re-emitted only in front of a character that is NOT escapable.
